@@ -57,6 +57,8 @@ def run_case(prop_id, case_dict, pins=None):
         sxenv.install_hash_models()
         if hasattr(mod, "setup_sym"):
             mod.setup_sym(R)
+        instrument.snapshot_globals([m for n, m in sys.modules.items()
+                                     if n.split(".")[0] == "btc_hd_wallet" and m is not None])
         fn = getattr(mod, case_dict["fn"])
         labels = {}
         twins = {}
